@@ -1875,6 +1875,8 @@ def evaluate__round(self: XPathFunction, context: ta.ContextType = None) \
             result = number.quantize(exponent, rounding=rounding)
             if precision < 0:
                 result = result.quantize(decimal.Decimal(1))
+        if isinstance(arg, int):
+            return int(result)  # the result of rounding a value of a derived integer type is an xs:integer
         return type(arg)(result)  # type: ignore[call-overload, arg-type]
     except TypeError as err:
         if isinstance(context, XPathSchemaContext):
